@@ -83,6 +83,13 @@ func main() {
 	if lerr == nil && *tier == "thorough" {
 		p386, lerr386 = load.Load(*repo, props.ModPath, "GOARCH=386")
 	}
+	var fix *load.Prog
+	var lerrFix error
+	for _, id := range ids {
+		if props.NeedsControls(id) && fix == nil && lerrFix == nil && lerr == nil {
+			fix, lerrFix = load.Load(filepath.Join(vdir, "fixtures"), "go.lstv.dev/utilfix")
+		}
+	}
 	loadS := time.Since(start).Seconds()
 	exit := 0
 	for _, id := range ids {
@@ -112,6 +119,36 @@ func main() {
 				if *only == "" || strings.HasPrefix(o.Rule, *only) {
 					rep.Obs = append(rep.Obs, o)
 				}
+			}
+			// thorough tier: the same rules on the program loaded under GOARCH=386 (word-size dependent code,
+			// build-tagged files); obligations are kept apart by a construct suffix
+			if p386 != nil {
+				env386 := &props.Env{P: p386, C: &flow.Ctx{Prog: p386.SSA, ModPath: props.ModPath}, S: &core.Sink{}, Tier: *tier, Only: *only}
+				func() {
+					defer func() {
+						if r := recover(); r != nil {
+							rep.Broken = append(rep.Broken, fmt.Sprintf("analyser panic (GOARCH=386): %v\n%s", r, debug.Stack()))
+						}
+					}()
+					pr.Run(env386)
+				}()
+				for _, o := range env386.S.Obs {
+					if *only == "" || strings.HasPrefix(o.Rule, *only) {
+						o.Construct += " [GOARCH=386]"
+						rep.Obs = append(rep.Obs, o)
+					}
+				}
+				rep.Extra["goarch_386_obligations"] = len(env386.S.Obs)
+			}
+			if props.NeedsControls(id) && *only == "" {
+				if lerrFix != nil {
+					rep.Broken = append(rep.Broken, "load fixtures: "+lerrFix.Error())
+				} else if fix != nil {
+					props.RunControls(id, fix, rep)
+				}
+			}
+			if *tier == "thorough" {
+				props.Thorough(env, id, rep, *repo, vdir)
 			}
 			rep.Extra["packages_loaded"] = len(p.Pkgs)
 			rep.Extra["functions_in_module"] = len(env.C.AllRepoFuncs())
